@@ -15,6 +15,8 @@ ORACLES = {
     'UserValidator': {'returns': 'none', 'raises': ('pjrpc.common.exceptions:IdentityError',)},
     'UserIdGen': {'returns': '=UserIdIter', 'raises': ()},
     'UserStatusFn': {'returns': 'int', 'raises': ()},
+    # a mock records the call and returns something (ignored by the mocker)
+    'UserMock': {'returns': 'any', 'raises': ()},
     # a response object is a WSGI application: calling it sends it
     'ExtHttpResponse': {'returns': 'any', 'raises': ()},
     'UserJitter': {'returns': 'number', 'raises': ()},
@@ -43,6 +45,12 @@ FIELD_TYPES = {
     ('pjrpc.server.specs.openrpc:OpenRPC', '_schema_extractor'): '=UserSchemaExtractor',
     ('pjrpc.server.specs.openapi:OpenAPI', '_error_http_status_map'): '=dict',
     ('pjrpc.server.dispatcher:Method', 'method'): '=UserMethod',
+    ('pjrpc.client.integrations.pytest:PjRpcMocker', '_matches'): 'ddict[ddict[list[=pjrpc.client.integrations.pytest:Match]]]',
+    ('pjrpc.client.integrations.pytest:PjRpcMocker', '_calls'): 'ddict[dict[=UserMock]]',
+    ('pjrpc.client.integrations.pytest:PjRpcMocker', '_mocker'): '=UserMockModule',
+    ('pjrpc.client.integrations.pytest:Match', 'once'): 'bool',
+    ('pjrpc.client.integrations.pytest:Match', 'callback'): 'opt:=UserCallback',
+    ('pjrpc.client.integrations.pytest:Match', 'response_data'): '=dict',
     ('builtins:ExtHttpRequest', 'mimetype'): 'str',
     ('builtins:ExtHttpRequest', 'content_type'): 'opt:str',
     ('builtins:ExtHttpRequest', 'is_json'): 'bool',
@@ -56,6 +64,8 @@ FIELD_TYPES = {
 
 # methods of abstract user objects (C19: tracers do not raise)
 ORACLE_METHODS = {
+    # the mocking package handed to the pytest mocker (unittest.mock / pytest-mock): MagicMock(...) gives a new mock
+    'UserMockModule': {'MagicMock': {'returns': '=UserMock', 'raises': ()}},
     # schema extractors are user-extensible: whatever class implements them, the per-method hooks return UNSET or a
     # list (of error classes) / a string and have no effect the library can observe (A-user)
     'UserSchemaExtractor': {'extract_errors': {'returns': 'any', 'raises': (), 'returned_invariant': 'spec.specs:errors_result_ok'},
